@@ -5,7 +5,9 @@ EDITS = {
     "C02": [("pams/order_book.py", "            self.priority_queue.remove(order)\n            heapq.heapify(self.priority_queue)", "            self.priority_queue.remove(order)", ["OrderBook._remove"])],
     "C03": [("pams/market.py", "and buy_order.price < sell_order.price\n            ):\n                break", "and buy_order.price <= sell_order.price\n            ):\n                break", ["Market._execution"])],
     "C04": [("pams/order_book.py", "if key < self.time", "if key <= self.time", ["OrderBook._check_expired_orders"]),
-            ("pams/order_book.py", "if order.volume == 0:\n            self._remove(order=order)", "if order.volume <= 1:\n            self._remove(order=order)", ["OrderBook.change_order_volume"])],
+            ("pams/order_book.py", "if order.volume == 0:\n            self._remove(order=order)", "if order.volume <= 1:\n            self._remove(order=order)", ["OrderBook.change_order_volume"]),
+            ("pams/order.py", "return self.placed_at + self.ttl < time", "return self.placed_at + self.ttl <= time", ["Order lifetime predicates"]),
+            ("pams/order.py", "        if self.order.is_canceled is True:\n            raise AttributeError(\"this order is already canceled\")\n", "", ["Order lifetime predicates"])],
     "C05": [("pams/simulator.py", "sell_agent.cash_amount += price * volume", "sell_agent.cash_amount += price", ["Simulator._update_agents_for_execution"])],
     "C06": [("pams/market.py", "            self._mid_prices[self.time] = self._mid_prices[self.time - 1]", "            self._mid_prices[self.time - 1] = self._mid_prices[self.time]", ["Market._update_time"]),
             ("pams/market.py", "if time > self.time:\n            raise AssertionError(\"Cannot refer the future parameters\")\n        result = parameters[time]", "if time > self.time + 1:\n            raise AssertionError(\"Cannot refer the future parameters\")\n        result = parameters[time]", ["Market._extract_data_by_time[prices]"])],
